@@ -9,6 +9,15 @@ for d in sorted(glob.glob(os.path.join(VERIF, "seeded", "*", ""))):
     meta = json.load(open(d + "meta.json"))
     prop = meta["property"]
     res = json.load(open(d + "result.json"))
+    if meta.get("status") == "neutralised":
+        for old in glob.glob(os.path.join(VERIF, "selftest", "*", "*-seeded-%s.patch" % sid.lower())):
+            os.remove(old)
+        dst = os.path.join(VERIF, "selftest", prop, "benign-seeded-%s.patch" % sid.lower())
+        with open(dst, "w") as fh:
+            fh.write("# origin: seeded change %s, behaviour-preserving since a later /repo fix: %s\n%s" % (
+                sid, meta.get("status_note", "")[:300].replace("\n", " "), open(d + "patch.diff").read()))
+        print(sid, "->", os.path.relpath(dst, VERIF), "(must stay silent)")
+        continue
     target = prop if res["checks"].get(prop, {}).get("reports") else OTHER.get(sid)
     if target is None or not res["checks"].get(target, {}).get("reports"):
         print("skip", sid, "(no recorded report; run tools/run_seeded.py --all-checks %s)" % sid)
